@@ -64,13 +64,16 @@ print('ok')
 # syscall tables: gdb ships XML generated from the kernel's per-architecture syscall.tbl files
 # (an independent transcription; the library's tables come from its own generator)
 import glob
-gmap = {'amd64-linux': 'x86_64', 'i386-linux': 'i386', 'arm-linux': 'arm', 'aarch64-linux': 'aarch64',
-        'ppc-linux': 'ppc', 's390-linux': 's390', 's390x-linux': 's390x'}
+gmap = {'amd64-linux': ['x86_64'], 'i386-linux': ['i386'], 'arm-linux': ['arm', 'armeb'], 'aarch64-linux': ['aarch64'],
+        'ppc-linux': ['ppc'], 'ppc64-linux': ['ppc64', 'ppc64le'], 's390-linux': ['s390'], 's390x-linux': ['s390x'],
+        'sparc-linux': ['sparc'], 'sparc64-linux': ['sparc64'], 'mips-o32-linux': ['mips', 'mipsel'],
+        'mips-n64-linux': ['mips64', 'mipsel64'], 'mips-n32-linux': ['mips64n32', 'mipsel64n32']}
 with open(os.path.join(out, 'syscalls_gdb.txt'), 'w') as f:
     f.write('# arch number name  (from /usr/share/gdb/syscalls/<arch>-linux.xml of this image: "generated using arch/*/syscall.tbl of the Linux kernel")\n')
-    for g, arch in sorted(gmap.items()):
+    for g, arches in sorted(gmap.items()):
         p = f'/usr/share/gdb/syscalls/{g}.xml'
         if not os.path.exists(p): continue
-        for m in re.finditer(r'<syscall name="([^"]+)" number="(\d+)"', open(p).read()):
-            f.write(f'{arch} {m.group(2)} {m.group(1)}\n')
+        for arch in arches:
+            for m in re.finditer(r'<syscall name="([^"]+)" number="(\d+)"', open(p).read()):
+                f.write(f'{arch} {m.group(2)} {m.group(1)}\n')
 print('syscalls ok')
